@@ -77,6 +77,9 @@ template<class T> struct Base {
 	virtual T* at_call(std::vector<idx_t> const& idx) = 0;
 	virtual T* at_tuple(std::vector<idx_t> const& idx) = 0;
 	virtual T* at_cursor(std::vector<idx_t> const& idx) = 0;
+	// C01: a broadcasted view designates its source at index i of the added leading dimension:
+	// returns 1 when v.broadcasted()[i] has the layout (strides, sizes) and base of v, 0 when not, -1 when not available
+	virtual int broadcast_same(idx_t i) = 0;
 };
 
 template<class T, int D> struct Holder;
@@ -137,6 +140,17 @@ template<class T, int D> struct Holder : Base<T> {
 		}
 	}
 	T* at_cursor(std::vector<idx_t> const& x) override { return cursor_chain_(v.home(), x, std::integral_constant<int, 0>{}); }
+	int broadcast_same(idx_t i) override {
+		if constexpr(D < BM_MAXD) {
+			auto&& b = v.broadcasted();
+			auto&& r = b[i];
+			bool same = (r.base() == v.base()) && (tup_to_vec(r.strides()) == tup_to_vec(v.strides())) && (tup_to_vec(r.sizes()) == tup_to_vec(v.sizes()));
+			if constexpr(D >= 2) { same = same && (r.extensions() == v.extensions()); }
+			return same ? 1 : 0;
+		} else {
+			return -1;
+		}
+	}
 
 	// call syntax with run-time chosen argument kinds: at most 3 leading arguments
 	template<int K, class Tup> std::unique_ptr<Base<T>> paren_(std::vector<parg> const& a, Tup tup) {
